@@ -181,6 +181,10 @@ def build(spec):
             from flowjax.wrappers import NonTrainable
 
             tr = eqx.tree_at(lambda a: a.loc, B.Affine(jnp.asarray(0.25), jnp.asarray(1.5)), replace_fn=NonTrainable)
+        if spec.get("transformer") == "loc":
+            tr = B.Loc(jnp.asarray(0.0))
+        if spec.get("transformer") == "scale":
+            tr = B.Scale(jnp.asarray(1.0))
         if spec.get("transformer") == "affine_frozen_scale_node":
             # node-wise freezing: the wrapper holds another wrapper (BijectionReparam), not a bare array
             from flowjax.wrappers import NonTrainable
